@@ -286,7 +286,15 @@ pub fn run_crc(a: &Args) {
             let t = &targets[r.gen_range(0..targets.len())];
             (t, gen::gval(&mut r, t, false))
         };
-        let frame = crc_frame(alg, t, &v);
+        let mut frame = crc_frame(alg, t, &v);
+        let (mut t, mut v) = (t.clone(), v);
+        // deep runs enumerate every burst pattern at every offset: short frames only
+        while deep && frame.len() > 16 {
+            t = targets[r.gen_range(0..targets.len())].clone();
+            v = gen::gval(&mut r, &t, false);
+            frame = crc_frame(alg, &t, &v);
+        }
+        let (t, v) = (&t, v);
         let aj = alg.to_json();
         let width = aj["width"].as_u64().unwrap() as usize;
         let mut cases: Vec<(String, Vec<u8>)> = vec![];
@@ -309,8 +317,8 @@ pub fn run_crc(a: &Args) {
                 cases.push(("bit".into(), flip(&frame, b, 1, 1)));
             }
         }
-        // bursts: every pattern for lengths up to 8 (up to the width for narrow CRCs / deep runs), sampled beyond
-        let exh_len = if deep { width.min(12) } else { width.min(8) };
+        // bursts: every pattern for lengths up to 8 (up to 10 bits in deep runs), sampled beyond
+        let exh_len = if deep { width.min(10) } else { width.min(8) };
         if frame.len() <= 10 || deep {
             for len in 2..=exh_len {
                 for mid in 0..(1u128 << (len - 2)) {
